@@ -42,8 +42,12 @@ def gen_set(rng, tmpls):
     if r < 0.55:
         k = rng.choice([1, 1, 2, 3])
         ann["delete-slots"] = render_slots(rng, [rng.randint(-1, 7) for _ in range(k)])
-    elif r < 0.6:
-        ann["delete-slots"] = rng.choice(["", "[1,", "null", "[1.5]", "[\"1\"]", "[]", "[99999999999]", "{}"])
+    elif r < 0.64:
+        # not a list of int32: the whole annotation is ignored (syntactically broken, or an array with an entry of the
+        # wrong type or out of range: encoding/json reports the error but still fills the slice, zero for the bad entry)
+        ann["delete-slots"] = rng.choice(["", "[1,", "null", "[1.5]", "[\"1\"]", "[]", "[99999999999]", "{}",
+                                          "[2, \"1\"]", "[\"2\"]", "[1.5, 2]", "[2, 4294967296]", "[1, {}]", "[true]",
+                                          "[1, 2147483648]", "[-2147483649, 1]", "[\"0\", 3]", "[null]", "[1, null]"])
     if rng.random() < 0.04:
         ann["paused-reconcile"] = rng.choice(["true", "true", "false", "TRUE", ""])
     if rng.random() < 0.2:
@@ -196,7 +200,7 @@ def gen_snapshot(rng, tmpls=(1, 2, 3)):
         api["set"] = None
     elif r < 0.3 and claims:
         cache["claims"] = [c for c in claims if rng.random() < 0.5]
-    return scenario(api, cache, tmpls=tmpls)
+    return ready_conditions(rng, scenario(api, cache, tmpls=tmpls))
 
 
 def in_window(call):
@@ -242,7 +246,16 @@ def gen_rollout(rng, tmpls=(1, 2, 3)):
     slots = []
     if rng.random() < 0.4:
         slots = sorted(set(rng.randint(0, s["replicas"] + 1) for _ in range(rng.choice([1, 1, 2]))))
-        s["ann"] = {"delete-slots": json.dumps(slots)}
+        written = list(slots)
+        if rng.random() < 0.3:
+            # a cascade: k slots inside [0, replicas) and the k ordinals from replicas upwards, which are in range only
+            # because the lower ones widened it; written in any order (the annotation is a set)
+            k = rng.choice([1, 1, 2])
+            low = rng.sample(range(0, s["replicas"]), min(k, s["replicas"]))
+            slots = sorted(set(low) | set(range(s["replicas"], s["replicas"] + len(low))))
+            written = list(slots)
+            rng.shuffle(written)
+        s["ann"] = {"delete-slots": json.dumps(written)}
     s["claims"] = rng.choice([[], [], ["data"]])
     old, new = revname(a), revname(b)
     revs = [mkrev(old, 1, a, hashlabel=HASH[(a, 0)]), mkrev(new, 2, b, hashlabel=HASH[(b, 0)])]
@@ -291,7 +304,50 @@ def gen_rollout(rng, tmpls=(1, 2, 3)):
     api = mkworld(s, pods, revs, claims)
     cache = copy.deepcopy(api)
     cache["revs"] = []
-    return scenario(api, cache, tmpls=tmpls)
+    return ready_conditions(rng, scenario(api, cache, tmpls=tmpls))
+
+
+import re as _re
+_WEB = _re.compile(r'(?<![A-Za-z0-9])web(?![A-Za-z0-9])')
+
+
+def rename_set(sc, new):
+    """the same scenario for a set called `new`: every name derived from the set name (pods, claims, revisions, owner
+    references, pod-name labels, ops) is renamed with it; the selector label keeps its value"""
+    def walk(x):
+        if isinstance(x, str):
+            return _WEB.sub(new, x)
+        if isinstance(x, list):
+            return [walk(y) for y in x]
+        if isinstance(x, dict):
+            return {k: walk(v) for k, v in x.items()}
+        return x
+    for w in ("api", "cache"):
+        sc[w] = walk(sc[w])
+        if sc[w].get("set"):
+            sc[w]["set"]["app"] = "web"
+    sc["ops"] = walk(sc["ops"])
+    return sc
+
+
+def long_name(rng, lo, hi):
+    n = rng.randint(lo, hi)
+    base = "tidb-cluster-production-eu-west-1-tikv-store-" * 8
+    return base[:n - 1].rstrip("-") .ljust(n - 1, "x") + "z"
+
+
+def ready_conditions(rng, sc):
+    """a pod that is not Ready carries no Ready condition, Ready=False or Ready=Unknown (its node stopped reporting):
+    only Ready=True counts as ready"""
+    choice = {}
+    for w in (sc["api"], sc["cache"]):
+        for p in w.get("pods") or []:
+            if not p.get("ready") and p.get("phase") == "Running":
+                if p["name"] not in choice:
+                    choice[p["name"]] = rng.choice(["", "False", "Unknown", "Unknown"])
+                if choice[p["name"]]:
+                    p["cond"] = choice[p["name"]]
+    return sc
 
 
 def gen_history(rng, tmpls=(1, 2, 3, 4)):
